@@ -286,7 +286,13 @@ fn arb_value_with(number: BoxedStrategy<String>, dups: bool, token_rate: u32) ->
 		4 => number.prop_map(RefValue::Num),
 		3 => gen::arb_string().prop_map(RefValue::Str),
 	];
-	let key = prop_oneof![20 => gen::arb_key(dups), token_rate => Just(TOKEN.to_string())];
+	// the private token itself, and keys that merely look like it (same length, same ends, prefixes, suffixes):
+	// only the exact token may be special, and only in first position
+	let lookalike = prop::sample::select(vec![
+		"$xxxxxxxxxxxxxxxxxxxxxNumber", "$serde_json::private::Numbex", "$serde_json::private::Numbe", "$serde_json::private::Number ", "$serde_json::private::number", "$serde_json::private::RawValue", "$serde_json__private__Number", "serde_json::private::Number$", "$", "$serde_json::private::Number\u{0}",
+	])
+	.prop_map(|s| s.to_string());
+	let key = prop_oneof![20 => gen::arb_key(dups), token_rate => Just(TOKEN.to_string()), token_rate.max(1) => lookalike];
 	let wide = proptest::collection::vec((prop_oneof![3 => gen::arb_long_key(), 1 => gen::arb_key(dups)], leaf.clone()), 9..90).prop_map(RefValue::Obj);
 	let tree = leaf.prop_recursive(4, 48, 6, move |inner| {
 		prop_oneof![
